@@ -296,8 +296,9 @@ Proof.
     + intros t' Hl. apply (i_key2 _ I). unfold upd in Hl. destruct (Nat.eqb_spec t' t); subst; [discriminate|auto].
     + intros t' Hl. apply (i_own _ I). unfold upd in Hl. destruct (Nat.eqb_spec t' t); subst; [discriminate|auto].
   - (* LGet *)
-    destruct (t_req (cfg t)); try discriminate. inversion H; subst; clear H.
-    eapply (inv_same_class s t (PDone (RRead (alookup n (objs s))))); eauto; rewrite Ep; cbn; congruence.
+    destruct (t_req (cfg t)); try discriminate; inversion H; subst; clear H.
+    + eapply (inv_same_class s t (PDone (RRead (alookup n (objs s))))); eauto; rewrite Ep; cbn; congruence.
+    + eapply (inv_same_class s t (PDone RNoopDone)); eauto; rewrite Ep; cbn; congruence.
   - (* LFault *)
     destruct (is_mut (t_req (cfg t)) && Nat.leb k 3); [|discriminate]. inversion H; subst; clear H.
     eapply (inv_same_class s t (PEnd (RErr (Nat.leb 2 k)))); eauto; rewrite Ep; cbn; congruence.
